@@ -345,6 +345,12 @@ def hDefaults (inp out : Json) : Except String Findings := do
   let fs := spec fs "C16.preserves-user" (Spec.C16.preserves s d && dtn == "")
   let fs := spec fs "C16.fills" (Spec.C16.fills d)
   let fs := spec fs "C16.validate-no-crash" (vdef != "panic")
+  -- C16 "validation rejects a duration or noRestartsDuration in manual validation mode" — whatever the other
+  -- (unrelated) fields say: evaluated on the defaulted spec, as Reconcile does
+  let manualWithDuration := match d.canary with
+    | some c => c.validationMode == "manual" && (c.duration.isSome || c.noRestartsDuration.isSome)
+    | none => false
+  let fs := spec fs "C16.validate-rejects-manual-durations" (!manualWithDuration || (vdef != "ok"))
   return fs
 
 /-! ### searchPossibleConflict -/
@@ -708,6 +714,13 @@ def hEdsReconcile (inp out : Json) : Except String Findings := do
       | some e => !isCondTrue e.status.conds "Canary-Failed" ||
                   e.status.desired + e.status.current + e.status.ready + e.status.available == 0
       | none => true))
+  -- C07 "the rollback completes even if the status write succeeds and the following spec write fails": until the
+  -- template is restored the failed replica set still matches spec.template and must survive clean-up, or the
+  -- next reconcile would create a fresh replica set from the bad template and restart the canary
+  let fs := spec fs "C07.rollback-keeps-uptodate" (o.deletedErs.all (fun nm =>
+      match own.find? (fun e => e.name == nm) with
+      | some e => SMap.get? e.annotations K.templateHashAnnot != some d.templateHash
+      | none => true))
   -- C07 (theorem C07_spec_write_even_if_status_current): whatever the status already says, while the
   -- up-to-date replica set is a failed canary and spec.template is not the active one's, a reconcile
   -- that reaches the status computation restores the template
@@ -774,7 +787,7 @@ def hEdsReconcile (inp out : Json) : Except String Findings := do
   -- silently be resolved against something else than the targeted nodes (C15), the list must not grow (C04)
   let readFault : Bool := (inp.getObjValAs? Bool "readFault").toOption.getD false
   let safety := ["SPEC C15.count-vs-targeted", "SPEC C15.keep(reconcile)", "SPEC C04.list-growth", "SPEC C12.writes-owned", "SPEC C12.no-adoption",
-    "SPEC C13.create-only-if-none", "SPEC C13.cleanup-safe", "SPEC C07.failed-deleted-only-drained", "SPEC C07.retention", "SPEC C05.status-active", "SPEC C16.reconcile-no-crash(EDS)",
+    "SPEC C13.create-only-if-none", "SPEC C13.cleanup-safe", "SPEC C07.failed-deleted-only-drained", "SPEC C07.retention", "SPEC C07.rollback-keeps-uptodate", "SPEC C05.status-active", "SPEC C16.reconcile-no-crash(EDS)",
     "SPEC C07.status-before-spec"]
   let fs := if readFault then fs.filter (fun t => safety.any (fun p => t.startsWith p)) else fs
   return fs
